@@ -99,6 +99,7 @@ const (
 	vCorLinkDangling
 	vCorSetStrayValueKey
 	vCorFkBackrefBucketMissing
+	vCorNullableUniqueStale
 	vCorCount
 )
 
@@ -265,6 +266,11 @@ func verifC09(corrupt bool) {
 				return nil
 			}
 			return db.DeleteBucket([]byte(vFEmps))
+		case vCorNullableUniqueStale:
+			// a stale entry of the nullable unique index pointing at an entity
+			// whose field is null (nulls are never indexed)
+			nickIdx := Path(tx, vRootPath, IndexesBucket, vEmpType, vFNick)
+			return nickIdx.Put([]byte("zz"), []byte(vIds[e]))
 		case vCorSetStrayValueKey:
 			// an extra key in the set index that is not even a bucket
 			return rolesIdx.Put([]byte("stray"), []byte("v"))
